@@ -233,6 +233,13 @@ fn history(src: &mut Src, st: &mut Stats, _env: &Env) -> CaseResult {
                 Ok(c) => c,
                 Err(e) => return Err(Failure::new("history", "harness-compile", e.to_string(), case)),
             };
+            // a clone, or an expression rebuilt from the parts of the compiled one, belongs to the
+            // same runtime
+            let compiled = match src.below(4) {
+                0 => compiled.clone(),
+                1 => jmespath::Expression::new(compiled.as_str(), compiled.as_ast().clone(), &rt),
+                _ => compiled,
+            };
             let data = Variable::from_json(DOC).unwrap();
             let res = catch(std::panic::AssertUnwindSafe(|| compiled.search(data)));
             let res = match res {
@@ -537,6 +544,7 @@ pub fn check_call_text(sub: &'static str, text: &str, src: &mut Src, st: &mut St
     st.eval();
     let case = json!({"expression": text, "model_expression": model_text, "document": DOC});
     let compiled = rt.compile(&text).map_err(|e| Failure::new(sub, "harness-compile", e.to_string(), case.clone()))?;
+    let compiled = if src.flip() { compiled.clone() } else { compiled };
     let got = catch(std::panic::AssertUnwindSafe(|| compiled.search(Variable::from_json(DOC).unwrap()))).map_err(|p| Failure::new(sub, "panic", p, case.clone()))?;
     let calls_seen = *count.lock().unwrap();
     let want = crate::imp::search_text(&model_text, DOC);
